@@ -197,6 +197,11 @@ def judge(cid, r, env, g, vec, order, data, checks, res):
         key = "%s/cpp-%s/spec-%s" % (vec["fault"][0], "accept" if ok else "reject", vec["verdict"])
         res.setdefault("outcomes", {})
         res["outcomes"][key] = res["outcomes"].get(key, 0) + 1
+        if ok != (vec["verdict"] == "accept") and \
+                sum(1 for x in res.setdefault("disagreements", []) if (x["cpp"] == "accept") == ok) < 2:
+            res["disagreements"].append({"schema": env.render(), "order": order, "input": data.hex(),
+                                         "cpp": "accept" if ok else "reject",
+                                         "spec_decoder": (vec["verdict"] + " " + vec.get("reason", "")).strip()})
         return
     if "compat" in checks and not op_overfill:
         _n(res, "compat")
